@@ -7,7 +7,7 @@ from propbase import StreamProperty
 RULE = ("every ufunc / reduction of the registry x operand arrangement (data, data+scalar, scalar+data, data+data with "
         "distinct values) x every axis name, every positional axis (positive and negative), None, and tuple-valued axes (every "
         "ordered subset of the dimensions, entries by name / position / negative position, duplicate and unknown entries) of 1-4-D objects "
-        "with pairwise distinct extents, real and complex; non-trivial = >=2 dims; distinct by canonical stream")
+        "with pairwise distinct extents, real and complex; reductions with further keywords (ddof, initial, dtype, where, keepdims) next to every form of axis, judged against NumPy on the plain values; non-trivial = >=2 dims; distinct by canonical stream")
 RED = ["sum", "mean", "max", "min", "prod", "var", "median", "any", "all", "ptp"]
 UN = ["negative", "conj", "square", "positive"]
 BINS = ["add", "subtract", "multiply", "divide"]
@@ -65,4 +65,84 @@ def streams(tier, seed):
 
 P = StreamProperty("C10", [NumpyOracle, ConsistencyOracle], streams, RULE, ("C10",),
                    lambda ops: len(ops[0]["dims"]) >= 2)
-run, replay = P.run, P.replay
+
+
+def keyword_oracle(tier, seed):
+    """reductions called with FURTHER keywords (ddof, initial, dtype, where, keepdims) next to every form of `axis`: the
+    call forms the Lean alphabet does not carry, judged on the real code alone — values and dtype are NumPy's for the
+    same call on the plain values, exactly the named / positioned dimensions disappear, the result is consistent"""
+    import warnings
+    from common import np, dnp
+    rng = random.Random(seed * 7919 + 110)
+    fails, n_eval = [], 0
+    calls = [("std", {"ddof": 1}), ("var", {"ddof": 1}), ("std", {}), ("sum", {"initial": 10.0}), ("prod", {"initial": 2.0}),
+             ("max", {"initial": 1e6}), ("min", {"initial": -1e6}), ("mean", {"dtype": "complex64"}), ("sum", {"dtype": "float32"}),
+             ("sum", {"where": True}), ("sum", {"keepdims": True}), ("mean", {"keepdims": True}), ("max", {"keepdims": True}),
+             ("median", {"keepdims": True}), ("ptp", {"keepdims": True}), ("any", {"keepdims": True}), ("var", {"keepdims": True, "ddof": 1})]
+    shapes = [(2, 3, 4), (3, 2)] + ([(2, 3, 4, 5), (4, 1, 3)] if tier == "thorough" else [])
+    for shape in shapes:
+        nd = len(shape)
+        names = rng.sample(["x", "y", "z", "t2", "t10"], nd)
+        vals = np.arange(float(np.prod(shape))).reshape(shape) * 1.5 - 7.0
+        if rng.random() < 0.5:
+            vals = vals + 1j * np.arange(float(np.prod(shape))).reshape(shape)[::-1]
+        d = dnp.DNPData(vals.copy(), list(names), [np.arange(s) * 0.5 + k for k, s in enumerate(shape)])
+        forms = [names[k] for k in range(nd)] + list(range(nd)) + [-1 - k for k in range(nd)]
+        for r in range(2, nd + 1):
+            for combo in itertools.permutations(range(nd), r):
+                forms.append(tuple(rng.choice([names[k], k, k - nd]) for k in combo))
+        forms.append(None)
+        if tier == "quick":
+            forms = forms[: 3 * nd] + rng.sample(forms[3 * nd:-1], min(6, len(forms) - 3 * nd - 1)) + [None]
+        for fname, kw in calls:
+            if np.iscomplexobj(vals) and fname in ("max", "min", "median", "ptp", "any"):
+                continue
+            f = getattr(np, fname)
+            for ax in forms:
+                kw2 = dict(kw)
+                if "dtype" in kw2:
+                    kw2["dtype"] = getattr(np, kw2["dtype"])
+                if "where" in kw2:
+                    kw2["where"] = (np.arange(vals.size).reshape(shape) % 3 != 0)
+                pos = None if ax is None else tuple((names.index(a) if isinstance(a, str) else a) % nd for a in (ax if isinstance(ax, tuple) else (ax,)))
+                n_eval += 1
+                sig = "%s:%s:%s" % (fname, "+".join(sorted(kw)), "none" if ax is None else ("tuple" if isinstance(ax, tuple) else type(ax).__name__))
+                with warnings.catch_warnings():
+                    warnings.simplefilter("ignore")
+                    try:
+                        want = f(vals, axis=(pos if isinstance(ax, tuple) or ax is None else pos[0]), **{k: v for k, v in kw2.items() if k != "keepdims"})
+                    except Exception:  # noqa: BLE001  (NumPy itself refuses the call)
+                        continue
+                    try:
+                        got = f(d, axis=ax, **kw2)
+                    except Exception as e:  # noqa: BLE001
+                        key = "C10:reduction-with-keyword-raises:" + sig
+                        fails.append({"key": key, "clause": key, "ops": [{"f": fname, "kw": sorted(kw), "axis": str(ax), "shape": list(shape), "error": type(e).__name__}]}); continue
+                gv = np.asarray(got.values if isinstance(got, dnp.DNPData) else got)
+                wv = np.asarray(want)
+                if gv.shape != wv.shape or gv.dtype != wv.dtype or not np.allclose(gv, wv, rtol=1e-12, atol=0, equal_nan=True):
+                    key = "C10:reduction-with-keyword-differs-from-numpy:" + sig
+                    fails.append({"key": key, "clause": key, "ops": [{"f": fname, "kw": sorted(kw), "axis": str(ax), "shape": list(shape)}]}); continue
+                if isinstance(got, dnp.DNPData):
+                    left = [n for k, n in enumerate(names) if pos is not None and k not in pos]
+                    okc = list(got.dims) == left and all(np.array_equal(got.coords[n], d.coords[n]) for n in left) and \
+                        tuple(len(got.coords[n]) for n in got.dims) == gv.shape
+                    if not okc:
+                        key = "C10:reduction-with-keyword-labels:" + sig
+                        fails.append({"key": key, "clause": key, "ops": [{"f": fname, "kw": sorted(kw), "axis": str(ax), "dims": list(got.dims), "shape": list(gv.shape)}]})
+    return fails, n_eval
+
+
+def run(tier, seed, escalate=False):
+    res = P.run(tier, seed, escalate)
+    fails, n_eval = keyword_oracle("thorough" if escalate else tier, seed)
+    seen = {f["key"] for f in res["impl_failures"]}
+    for f in fails:
+        if f["key"] not in seen:
+            seen.add(f["key"]); res["impl_failures"].append(f)
+    res["evaluations"] += n_eval
+    res["distribution"]["keyword_calls"] = n_eval
+    return res
+
+
+replay = P.replay
